@@ -1,2 +1,52 @@
-From TV Require Import Base.
-Example C03_placeholder : True. Proof. exact I. Qed.
+(* C03 -- devices see exactly the latest upstream values along the declared wiring.
+   Three layers, each for every wiring / history / answer order:
+   (1) routing (Model/Wiring.v): an output change reaches exactly the input ports wired to it;
+   (2) within a tick (Model/Ticker.v): the changes handed to a component are exactly the values its
+       upstream components answered earlier in the same tick, whatever the order of the answers;
+   (3) across ticks (Model/Component.v): the device component's cumulative inputs hold, per port,
+       the latest value ever received.
+   PARTIAL: that (1)-(3) compose through system-simulation boundaries (external / expose pseudo
+   components of Model/Sim.v) is not proved; it is decided per run by the Coq-defined oracle
+   [latest_ok] (Oracle/SimOracle.v, code 81) on the flattened wiring of every generated nesting.
+   Property theorems only. *)
+From TV Require Import Base Model.Wiring Model.Ticker Model.Component Proofs.WiringP Proofs.TickerP Proofs.FlattenP.
+Open Scope Z_scope.
+
+Theorem C03_route_exact : forall (conns : list conn) src (ch : list (port * Z)) ic ip v,
+  single_source conns -> NoDup (keys ch) ->
+  (lookup2r (route conns src ch) ic ip = Some v <->
+   exists op, lookup op ch = Some v /\ In (src, op, ic, ip) conns).
+Proof. intros. apply route_exact; assumption. Qed.
+
+Theorem C03_route_nothing_else : forall (conns : list conn) src (ch : list (port * Z)) ic ip v,
+  lookup2r (route conns src ch) ic ip = Some v ->
+  exists op, In (op, v) ch /\ In (src, op, ic, ip) conns.
+Proof. intros conns src ch ic ip v. apply route_nothing_else. Qed.
+
+(* any tick, any interleaving of answers: what an update carries is exactly what was answered
+   upstream before it (no loss, no cross-talk, nothing for unwired components) *)
+Theorem C03_within_tick : forall conns comps t roots ext st tr,
+  single_source conns -> Run conns comps t roots ext st tr -> wf_answers tr ->
+  forall l1 c t' chg l2, tr = l1 ++ EDispatch (Upd c t' chg) :: l2 ->
+  forall q v, lookup q chg = Some v <-> spec_inputs conns l1 c q v.
+Proof.
+  intros conns comps t roots ext st tr Hss HR Hwf l1 c t' chg l2 E.
+  assert (H : action_ok conns t roots l1 (Upd c t' chg)).
+  { eapply disp_ok_split; [eapply run_disp_ok; eassumption | exact E]. }
+  destruct H as [_ [H _]]. exact H.
+Qed.
+
+(* any history of updates of a device component: the i-th update is handed, per port, the latest
+   value among everything received so far -- nothing stale, nothing forgotten *)
+Theorem C03_cumulative_latest : forall h i inp ch q,
+  nth_error (run_dc dc_init h) i = Some (inp, ch) ->
+  lookup q inp = last_write q (concat (map fst (firstn (S i) h))).
+Proof.
+  intros h i inp ch q H. rewrite (run_dc_latest h dc_init i inp ch q H).
+  destruct (last_write q _); reflexivity.
+Qed.
+
+Example C03_example :
+  map fst (run_dc dc_init [([(1%positive, 5)], []); ([(2%positive, 7)], []); ([(1%positive, 6)], [])])
+  = [[(1%positive, 5)]; [(1%positive, 5); (2%positive, 7)]; [(1%positive, 6); (2%positive, 7)]].
+Proof. vm_compute. reflexivity. Qed.
